@@ -60,6 +60,11 @@ type realm struct {
 	// Used by close() to wait for sessions to exit.
 	waitHandlers sync.WaitGroup
 
+	// Sessions whose handlers exited because the realm is shutting down.
+	// Their peers are closed by close(), after broker and dealer have stopped.
+	shutdownSess []*wamp.Session
+	shutdownLock sync.Mutex
+
 	// Session meta-procedure registration ID -> handler map.
 	metaProcMap map[wamp.ID]func(*wamp.Invocation) wamp.Message
 	metaDone    chan struct{}
@@ -217,6 +222,15 @@ func (r *realm) close() {
 	// No new messages, so safe to close dealer and broker.
 	r.dealer.close()
 	r.broker.close()
+
+	// Broker and dealer have stopped, so nothing can be routed to the sessions
+	// any more and their peers can be closed.
+	r.shutdownLock.Lock()
+	for _, sess := range r.shutdownSess {
+		sess.Close()
+	}
+	r.shutdownSess = nil
+	r.shutdownLock.Unlock()
 
 	// Finally close realm's action channel.
 	close(r.actionChan)
@@ -419,7 +433,16 @@ func (r *realm) handleSession(sess *wamp.Session) error {
 			}
 		}
 		r.onLeave(sess, shutdown, killAll)
-		sess.Close()
+		if shutdown {
+			// At shutdown the session stays in the broker and dealer, where
+			// handlers of other sessions may still route messages to it. Its
+			// peer must stay open until broker and dealer have stopped.
+			r.shutdownLock.Lock()
+			r.shutdownSess = append(r.shutdownSess, sess)
+			r.shutdownLock.Unlock()
+		} else {
+			sess.Close()
+		}
 		r.waitHandlers.Done()
 	}()
 
